@@ -20,6 +20,7 @@ from props.c05 import shared_conf, conf_untouched, contrast_conf, decoded_alone
 CONF_KEYS = ["src_w", "src_v", "dst_w", "dst_v", "seq_w", "seq_v", "mode", "large", "crc", "dir", "segctrl"]
 CONF_FLAGS = ["mode", "large", "crc", "dir", "segctrl"]
 PARAM_KEYS = ["data", "offset", "meta", "state"]
+_code = core.std_code    # int(code read back), after `code == Enum.NAME  <=>  it is the standard's code for NAME`
 
 
 # --------------------------------------------------------------------------------------------
@@ -30,7 +31,8 @@ def _meta(a, mk="meta", sk="state") -> Optional[SegmentMetadata]:
         return None
     st = a[sk]
     if st in (0, 1, 2, 3):
-        st = RecordContinuationState(st)
+        # the member an application writes: the one with the STANDARD NAME of the code (core.std_member)
+        st = core.std_member(RecordContinuationState, st, strict=True)
     return SegmentMetadata(record_cont_state=st, metadata=unhx(a[mk]))
 
 
@@ -60,14 +62,14 @@ def _pdu_fields(p: FileDataPdu) -> Dict[str, Any]:
     sm = p.segment_metadata
     f.update(offset=int(p.offset), data=hx(p.file_data),
              meta=None if sm is None else hx(sm.metadata),
-             state=None if sm is None else int(sm.record_cont_state))
+             state=None if sm is None else _code(RecordContinuationState, sm.record_cont_state))
     # the object's own views agree with its header and params
     if int(p.packet_len) != f["packet_len"] or int(p.pdu_data_field_len) != f["dlen"] or int(p.header_len) != f["header_len"]:
         raise SelfCheckFailure("packet_len / pdu_data_field_len / header_len of the PDU differ from its header's")
     if bool(p.has_segment_metadata) != (sm is not None) or f["segmeta"] != (0 if sm is None else 1):
         raise SelfCheckFailure("segment-metadata flag and presence of segment metadata disagree")
     rcs = p.record_cont_state
-    if (rcs is None) != (sm is None) or (rcs is not None and int(rcs) != f["state"]):
+    if (rcs is None) != (sm is None) or (rcs is not None and _code(RecordContinuationState, rcs) != f["state"]):
         raise SelfCheckFailure("record_cont_state view disagrees with the segment metadata")
     if int(p.file_flag) != f["large"] or int(p.crc_flag) != f["crc"] or int(p.pdu_type) != f["ptype"] \
             or int(p.direction) != f["dir"] or int(p.transmission_mode) != f["mode"]:
@@ -209,7 +211,7 @@ def _state(p: FileDataPdu, err=None) -> Dict[str, Any]:
             raise
         raw = None
     st = {"err": err, "packet_len": int(p.packet_len), "dlen": int(p.pdu_data_field_len),
-          "segmeta": int(p.pdu_header.segment_metadata_flag), "raw": None if raw is None else hx(raw),
+          "segmeta": _code(SegmentMetadataFlag, p.pdu_header.segment_metadata_flag), "raw": None if raw is None else hx(raw),
           "pack_err": perr}
     if raw is not None:
         f = {"packet_len": st["packet_len"], "header_len": int(p.header_len), "crc": int(p.crc_flag)}
@@ -459,6 +461,8 @@ class C07(Prop):
             d.append("WITH_CRC / LARGE values")
         if int(SegmentMetadataFlag.PRESENT) != 1 or int(SegmentMetadataFlag.NOT_PRESENT) != 0:
             d.append("SegmentMetadataFlag values")
+        # every member the ops use BY NAME against the tables of the standard (a swap leaves the set of values intact)
+        d += core.std_table_diffs((RecordContinuationState, PduType, Direction, CrcFlag, LargeFileFlag, SegmentMetadataFlag))
         return d
 
     def nontrivial(self, c: Case) -> bool:
